@@ -83,7 +83,7 @@ class StrObj:
 def make_ctx():
     return {
         "x": TAINT, "xn": XN, "xu": XU, "l": [TAINT, "T"], "d": {"k": TAINT}, "dk": {KTAINT: TAINT},
-        "o": Obj(TAINT), "ol": [Obj(TAINT), Obj("T")], "os": StrObj(), "flag": True,
+        "o": Obj(TAINT), "ol": [Obj(TAINT), Obj("T")], "os": StrObj(),
     }
 
 
@@ -96,7 +96,7 @@ CTX_SRC = (
     "    def __str__(self): return TAINT\n"
     "    __repr__ = __str__\n"
     "ctx = {'x': TAINT, 'xn': %r, 'xu': %r, 'l': [TAINT, 'T'], 'd': {'k': TAINT}, 'dk': {%r: TAINT},\n"
-    "       'o': Obj(TAINT), 'ol': [Obj(TAINT), Obj('T')], 'os': StrObj(), 'flag': True}\n"
+    "       'o': Obj(TAINT), 'ol': [Obj(TAINT), Obj('T')], 'os': StrObj()}\n"
 ) % (TAINT, XN, XU, KTAINT)
 
 # --------------------------------------------------------------------------- carriers
@@ -376,7 +376,9 @@ def make_env(mode, templates):
         auto = jinja2.select_autoescape(enabled_extensions=("html",), default_for_string=False, default=False)
     else:
         auto = False
-    return jinja2.Environment(autoescape=auto, loader=jinja2.DictLoader(templates))
+    env = jinja2.Environment(autoescape=auto, loader=jinja2.DictLoader(templates))
+    env.globals["flag"] = True  # runtime-evaluated; a global so that imports without context see it too
+    return env
 
 
 def script_for(mode, templates):
@@ -385,7 +387,7 @@ def script_for(mode, templates):
         mode, "False")
     return ("import jinja2, random\n" + CTX_SRC + "templates = %r\n" % (templates,)
             + "env = jinja2.Environment(autoescape=%s, loader=jinja2.DictLoader(templates))\n" % auto
-            + "random.seed(0)\n"
+            + "env.globals['flag'] = True\nrandom.seed(0)\n"
             + "out = env.get_template('t.html').render(ctx)\n"
             + "print(out)\n"
             + "print('autoescaping is active for every {{ }} of these templates; raw metacharacters in the output:',"
@@ -423,7 +425,7 @@ def leak_of(out, kind):
     elif kind == "direct:xmlattr":
         out = XMLATTR_RE.sub("", out)
     elif kind == "direct:tojson":
-        out = TOJSON_RE.sub("", out)
+        out = out.replace('"', "")  # CALIBRATED: documented to contain double quotes
     return "".join(sorted(set(STRICT.findall(out))))
 
 
@@ -501,26 +503,41 @@ def _try(mode, frame, val, chain):
     return None
 
 
+MARKUP_VAL = "x|e"  # canonical Markup-valued expression used to name "carrier applied to a Markup value"
+
+
 def minimise(mode, frame, val, chain, kind):
-    """smallest sub-case that still leaks -> narrow stable signature."""
+    """smallest sub-case that still leaks -> narrow stable signature.
+
+    Candidates, simplest first: the frame alone; each carrier alone on x / the literal / the original value /
+    a Markup value in the plain output frame; the frame with one carrier; the whole chain in the plain frame;
+    the case itself.  A filter-hole frame whose filter does not leak when applied to a Markup value in {{ }}
+    is reported as the frame not escaping the filter result."""
     out_frame = FRAMES["out"]
+    hole = "@F@" in frame.templates["t.html"]
     cands = []
     v0 = frame.vals[0] if frame.vals else "x"
-    cands.append((frame, v0, []))
-    cands.append((frame, LIT if not frame.vals else v0, []))
+    if not hole:
+        cands.append((frame, v0, [], None))
+        if not frame.vals:
+            cands.append((frame, LIT, [], None))
     for c in chain:
-        cands.append((out_frame, "x", [c]))
-        cands.append((out_frame, LIT, [c]))
-        cands.append((out_frame, val if not frame.vals else "x", [c]))
+        cands.append((out_frame, "x", [c], None))
+        cands.append((out_frame, LIT, [c], None))
+        if not frame.vals:
+            cands.append((out_frame, val, [c], None))
+        cands.append((out_frame, MARKUP_VAL, [c], "markup+" + c[0]))
+    if hole:
+        cands.append((frame, v0, chain, "result-not-escaped"))
     for c in chain:
-        cands.append((frame, v0, [c]))
-        cands.append((frame, val, [c]))
-    cands.append((out_frame, val if not frame.vals else "x", chain))
-    cands.append((frame, val, chain))
-    for fr, v, ch in cands:
+        cands.append((frame, v0, [c], None))
+        cands.append((frame, val, [c], None))
+    cands.append((out_frame, val if not frame.vals else "x", chain, None))
+    cands.append((frame, val, chain, None))
+    for fr, v, ch, label in cands:
         r = _try(mode, fr, v, ch)
         if r is not None:
-            names = "+".join(c[0] for c in ch) or "-"
+            names = label or "+".join(c[0] for c in ch) or "-"
             sig = "C15/leak/%s/%s" % (fr.name, names)
             m = mode
             if mode != "static":
@@ -698,7 +715,7 @@ def run(ctx: core.Ctx):
             shards.append((shard_d1, (fn, u, "q", ("x", LIT), d5_modes)))
     # 6. filter x filter (and ops/methods on either side)
     d6_modes = ("static", "blk-flag-off") if q else MODES
-    outer_groups = chunks(fnames if q else units, 4 if q else 8)
+    outer_groups = chunks(fnames if q else units, 54 if q else 14)
     for inner in units:
         for og in outer_groups:
             shards.append((shard_d2, (inner, og, "min" if q else "q", d6_modes, 4 if q else 12)))
